@@ -90,6 +90,15 @@ fn grid() -> Vec<Case> {
         };
         g.push(Case { cfg, seed_index: None, seed_mixed: false });
     }
+    // a suffix that sorts behind "restart" (whole file names are then ordered differently from
+    // their infixes)
+    for naming in [NamingK::TimestampsDirect, NamingK::Timestamps] {
+        for clean in [CleanK::Never, CleanK::Log(2)] {
+            let mut cfg = Cfg::rot(CritK::Size(LIMIT), naming, clean);
+            cfg.parts.suffix = Some("txt".into());
+            g.push(Case { cfg, seed_index: None, seed_mixed: false });
+        }
+    }
     g.push(Case {
         cfg: Cfg::norot(),
         seed_index: None,
